@@ -275,9 +275,9 @@ const preludeText = `
 (assert (forall ((i Int)) (! (= (select zero_arr_Slice i) nil_slice) :pattern ((select zero_arr_Slice i)))))
 (declare-const zero_arr_Flt (Array Int Flt))
 (assert (forall ((i Int)) (! (= (select zero_arr_Flt i) flt_zero) :pattern ((select zero_arr_Flt i)))))
-(define-fun wrap_u8 ((x Int)) Int (mod x 256))
-(define-fun wrap_u16 ((x Int)) Int (mod x 65536))
-(define-fun wrap_u32 ((x Int)) Int (mod x 4294967296))
+(define-fun wrap_u8 ((x Int)) Int (ite (and (<= 0 x) (< x 256)) x (mod x 256)))
+(define-fun wrap_u16 ((x Int)) Int (ite (and (<= 0 x) (< x 65536)) x (mod x 65536)))
+(define-fun wrap_u32 ((x Int)) Int (ite (and (<= 0 x) (< x 4294967296)) x (mod x 4294967296)))
 (define-fun wrap_u64 ((x Int)) Int (ite (and (<= 0 x) (< x 18446744073709551616)) x (mod x 18446744073709551616)))
 (define-fun wrap_i8 ((x Int)) Int (ite (and (<= (- 128) x) (< x 128)) x (- (mod (+ x 128) 256) 128)))
 (define-fun wrap_i16 ((x Int)) Int (ite (and (<= (- 32768) x) (< x 32768)) x (- (mod (+ x 32768) 65536) 32768)))
